@@ -171,7 +171,7 @@ theorem C14_reachable (s : Sys) (l : List Step) (h : s.reward.Inv) : (s.steps l)
       | bsei s1 sender funds tm _ _ hx' h t r d g => rw [r]; exact hp
       | stsei blk sender funds tm _ hx' h b r d g => rw [r]; exact hp
       | reward s1 sender funds rm _ _ _ _ hx' h b t d g => exact C14_inv_step _ _ _ _ _ _ _ _ _ hp hx'
-      | disp env sender funds dm _ hx' h b t r g => rw [r]; exact hp
+      | disp env sender funds dm _ _ _ hx' h b t r g => rw [r]; exact hp
       | reg s1 sender funds rm _ h1 _ _ hx' h b t r d => rw [r]; exact hp)
     (by
       intro x e hp
@@ -319,7 +319,7 @@ theorem FundInv.step (o : Addr × Addr) (rd : Denom) (s s' : Sys) (m : Msg) (res
         | bsei _ _ _ _ heq _ _ _ _ _ _ _ => injection heq with _ e2 _ _; simp [e2, internal]
         | stsei _ _ _ _ heq _ _ _ _ _ _ => injection heq with _ e2 _ _; simp [e2, internal]
         | reward _ _ _ _ heq _ _ _ _ _ _ _ _ _ => injection heq with _ e2 _ _; simp [e2, internal]
-        | disp _ _ _ _ heq _ _ _ _ _ _ => injection heq with _ e2 _ _; simp [e2, internal]
+        | disp _ _ _ _ heq _ _ _ _ _ _ _ _ => injection heq with _ e2 _ _; simp [e2, internal]
         | reg _ _ _ _ heq _ _ _ _ _ _ _ _ _ => injection heq with _ e2 _ _; simp [e2, internal]
       have ha : a = b0 := hb
       rw [ha]
@@ -345,7 +345,7 @@ theorem FundInv.step (o : Addr × Addr) (rd : Denom) (s s' : Sys) (m : Msg) (res
     | hub _ _ _ _ _ _ _ _ _ _ _ r _ _ => rw [r]; exact ⟨rfl, rfl, rfl, rfl⟩
     | bsei _ _ _ _ _ _ _ _ _ r _ _ => rw [r]; exact ⟨rfl, rfl, rfl, rfl⟩
     | stsei _ _ _ _ _ _ _ _ r _ _ => rw [r]; exact ⟨rfl, rfl, rfl, rfl⟩
-    | disp _ _ _ _ _ _ _ _ _ r _ => rw [r]; exact ⟨rfl, rfl, rfl, rfl⟩
+    | disp _ _ _ _ _ _ _ _ _ _ _ r _ => rw [r]; exact ⟨rfl, rfl, rfl, rfl⟩
     | reg _ _ _ _ _ _ _ _ _ _ _ _ r _ => rw [r]; exact ⟨rfl, rfl, rfl, rfl⟩
     | reward s1 sender funds rm heq h1 _ _ hx' _ _ _ _ _ =>
       have hs := hsnd _ _ _ _ heq
@@ -382,7 +382,7 @@ theorem FundInv.step (o : Addr × Addr) (rd : Denom) (s s' : Sys) (m : Msg) (res
         | bsei _ _ _ _ heq _ _ _ _ _ _ _ => cases heq
         | stsei _ _ _ _ heq _ _ _ _ _ _ => cases heq
         | reward _ _ _ _ heq _ _ _ _ _ _ _ _ _ => cases heq
-        | disp _ _ _ _ heq _ _ _ _ _ _ => cases heq
+        | disp _ _ _ _ heq _ _ _ _ _ _ _ _ => cases heq
         | reg _ _ _ _ heq _ _ _ _ _ _ _ _ _ => cases heq
       subst hsub
       refine base A' rest (by simp [h2]) hA' hrest ?_
@@ -426,7 +426,7 @@ theorem FundInv.step (o : Addr × Addr) (rd : Denom) (s s' : Sys) (m : Msg) (res
         | bsei _ _ _ _ heq _ _ _ _ _ _ _ => injection heq with _ _ e3 _; cases e3
         | stsei _ _ _ _ heq _ _ _ _ _ _ => injection heq with _ _ e3 _; cases e3
         | reward _ _ _ _ heq _ _ _ _ _ _ _ _ _ => injection heq with _ _ e3 _; cases e3
-        | disp _ _ _ _ heq _ _ _ _ _ _ => injection heq with _ _ e3 _; cases e3
+        | disp _ _ _ _ heq _ _ _ _ _ _ _ _ => injection heq with _ _ e3 _; cases e3
         | reg _ _ _ _ heq _ _ _ _ _ _ _ _ _ => injection heq with _ _ e3 _; cases e3
       | _ => simp [isRw] at hm
     | _ => simp [isRw] at hm
@@ -454,7 +454,7 @@ theorem FundInv.step (o : Addr × Addr) (rd : Denom) (s s' : Sys) (m : Msg) (res
       exact other r (fun x hx' => by rw [(sent.1 _ _ _ _ heq) x hx']; decide)
     | stsei blk sender funds tm heq _ _ _ r _ _ =>
       exact other r (fun x hx' => by rw [(sent.1 _ _ _ _ heq) x hx']; decide)
-    | disp env sender funds dm heq _ _ _ _ r _ =>
+    | disp env sender funds dm heq _ _ _ _ _ _ r _ =>
       exact other r (fun x hx' => by rw [(sent.1 _ _ _ _ heq) x hx']; decide)
     | reg s1 sender funds rm heq _ _ _ _ _ _ _ r _ =>
       exact other r (fun x hx' => by rw [(sent.1 _ _ _ _ heq) x hx']; decide)
